@@ -69,6 +69,16 @@ def gen_notnew(rng, base):
             m['new'] = True
     if rng.random() < 0.25:
         ov = gen.place_flags(rng, ov, p=0.15, vocab=('prio', 'del'), on_seq_elems=False)
+    if rng.random() < 0.2 and n['t'] == 'map':
+        # the !notnew node also deletes, and the older mapping holds an entry protected by a higher priority: what the deletion
+        # removes first did exist, writing it again creates nothing
+        from .c16 import put
+        n['del'] = True
+        base = copy.deepcopy(base)
+        try:
+            put(base[-1], tuple(p) + ('zz_prot',), S(255, prio=1))
+        except Exception:
+            pass
     if rng.random() < 0.3:
         for _, n in list(emit.walk(ov)):
             if n['t'] == 'sc' and not emit.has_flags(n) and rng.random() < 0.3:
